@@ -142,10 +142,22 @@ def run_tasks(modname, tasks, workers=None, in_process=False):
 	workers = workers or min(len(tasks), int(os.environ.get('VERIF_WORKERS', '16')))
 	ctx = multiprocessing.get_context('forkserver')
 	out = [None] * len(tasks)
-	with ProcessPoolExecutor(max_workers=workers, mp_context=ctx) as ex:
+	# watchdog: a task that does not come back (non-terminating code under test, stuck controller) makes the run
+	# INCONCLUSIVE (exit 2) - never a VIOLATION, since no failing input can be shown
+	limit = float(os.environ.get('VERIF_TASK_TIMEOUT') or 3600)
+	ex = ProcessPoolExecutor(max_workers=workers, mp_context=ctx)
+	try:
 		futs = {ex.submit(_run_task, modname, f, kw): i for i, (f, kw) in enumerate(tasks)}
-		for fut in as_completed(futs):
-			out[futs[fut]] = fut.result()
+		try:
+			for fut in as_completed(futs, timeout=limit):
+				out[futs[fut]] = fut.result()
+		except TimeoutError:
+			stuck = [tasks[i] for fut, i in futs.items() if not fut.done()]
+			for p in list(ex._processes.values()):
+				p.kill()
+			raise HarnessError(f'{len(stuck)} task(s) did not finish within {limit:.0f}s (possible non-termination), first: {stuck[0]}')
+	finally:
+		ex.shutdown(wait=False, cancel_futures=True)
 	return out
 
 
